@@ -56,6 +56,23 @@ int hx_aead(const char *op, int argc, char **argv, FILE *o) {
         hx_put_hex(o, c, b[0].n); fputc(' ', o); hx_put_hex(o, mac, a->ab);
         free(c); free(c2); freeb(b, 4); return 0;
     }
+    if (strcmp(sfx, "encip") == 0) {        /* in place: m ad n k -> "c mac" with c == m */
+        unsigned char *buf, mac[32]; unsigned long long maclen = 0; int rc;
+        if (nbufs(argc, argv, b, 4)) return -1;
+        if (b[2].n != a->nb || b[3].n != a->kb) { freeb(b, 4); return -1; }
+        buf = (unsigned char *) malloc(b[0].n + 1); memcpy(buf, b[0].p, b[0].n);
+        rc = a->encd(buf, mac, &maclen, buf, b[0].n, b[1].n ? b[1].p : NULL, b[1].n, NULL, b[2].p, b[3].p);
+        if (rc) fprintf(o, "RC=%d ", rc);
+        hx_put_hex(o, buf, b[0].n); fputc(' ', o); hx_put_hex(o, mac, a->ab); free(buf); freeb(b, 4); return 0;
+    }
+    if (strcmp(sfx, "decip") == 0) {        /* in place decrypt: c mac ad n k -> "rc m" with m == c */
+        unsigned char *buf; int rc;
+        if (nbufs(argc, argv, b, 5)) return -1;
+        if (b[1].n != a->ab || b[3].n != a->nb || b[4].n != a->kb) { freeb(b, 5); return -1; }
+        buf = (unsigned char *) malloc(b[0].n + 1); memcpy(buf, b[0].p, b[0].n);
+        rc = a->decd(buf, NULL, buf, b[0].n, b[1].p, b[2].n ? b[2].p : NULL, b[2].n, b[3].p, b[4].p);
+        fprintf(o, "%d %llu ", rc, rc == 0 ? (unsigned long long) b[0].n : 0ULL); hx_put_hex(o, buf, b[0].n); free(buf); freeb(b, 5); return 0;
+    }
     if (strcmp(sfx, "dec") == 0) {          /* w c mac ad n k */
         int w, rc; unsigned char *m;
         if (argc != 6) return -1;
